@@ -6,6 +6,8 @@ CONSTANTS
   PidOps = {"$p1", "$p2", "9999"}
   Sigs = {"TERM", "INT", "STOP", "CONT"}
   JobsOpts = {"", "-l", "-p"}
+  KillLNums = {0, 15, 393}
+  FgSlots = {3}
   StartWith = "none"
 VIEW view
 INVARIANT TableConsistent
